@@ -147,6 +147,19 @@ def cases():
     for tag, filler in (("comment-with-close-tags", "<!-- </a></a> -->"), ("cdata-with-close-tags", "<![CDATA[</a></a>]]>"),
                         ("pi-with-close-tags", "<?p </a></a>?>"), ("comment-with-empty-element-tags", "<!-- <a/><a/> /> -->")):
         out.append((f"deep-plain-elements:between={tag}:depth={depth}", {"a.xsd": ("<a>" + filler) * depth + "</a>" * depth}, "a.xsd"))
+    # ---- a long chain of files, each importing the next (no cycle): every file that is read for an import is a level of recursion
+    for n in (300, 3000, 40_000):
+        files = {f"f{i}.xsd": schema(f'<xs:import namespace="http://zv.test/chain/{i + 1}" schemaLocation="f{i + 1}.xsd"/>'
+                                     f'<xs:complexType name="C{i}"><xs:sequence><xs:element name="a" type="xs:int"/></xs:sequence></xs:complexType>',
+                                     tns=f"http://zv.test/chain/{i}") for i in range(n)}
+        files[f"f{n}.xsd"] = schema('<xs:complexType name="Last"><xs:sequence><xs:element name="a" type="xs:int"/></xs:sequence></xs:complexType>',
+                                    tns=f"http://zv.test/chain/{n}")
+        out.append((f"import-chain:files={n}", files, "f0.xsd"))
+    # ---- thousands of members with one name in one type (each needs a field name of its own)
+    for n in (500, 12_000):
+        xsd(f"same-named-members:count={n}", '<xs:complexType name="C"><xs:sequence>' + '<xs:element name="x" type="xs:int"/>' * n + "</xs:sequence></xs:complexType>")
+        xsd(f"same-named-members-two-spellings:count={n}", '<xs:complexType name="C"><xs:sequence>' + '<xs:element name="x" type="xs:int"/><xs:element name="X" type="xs:int"/>' * (n // 2)
+            + "</xs:sequence></xs:complexType>")
     # ---- both limits at once: a chain of forward references (below its limit) whose every link sits inside nested groups
     # (below that limit): the stack has to hold the product
     for links, nesting in ((250, 100), (200, 900)):
